@@ -19,7 +19,7 @@ def run(ctx):
                         desc='preamble width, BodyLength digits, CheckSum field, return value', backend='default', tier='quick' if hi <= 10015 else 'thorough'))
     ctx.assumptions += ['position ordering of fields inside a component (the _pos multimap) and group layout are not part of this harness (ordering harness: not built, see tools/reports/C02.md)',
                         'Message::encode(f8String&) only adds a stack buffer of FIX8_MAX_MSG_LENGTH + 32 bytes around the same code: capacity is C03\'s subject']
-    ctx.solve(jobs=4)
+    ctx.solve(jobs=codec.JOBS)
     ctx.handle_failures(replay, kf)
     announce_known(ctx, kf, replay)
     return ctx.finish()
